@@ -3,6 +3,7 @@
 Functions under contract and how each obligation is discharged: see FUNCTIONS / tasks().
 Top-level clauses are transcribed from the property statement; helper clauses from the code.
 """
+import re
 import math, itertools
 from fractions import Fraction
 import numpy as np
@@ -735,6 +736,23 @@ def rt_end_to_end(seed, n):
                     continue
                 out.append(dict(name='rt:' + c['name'], ok=c['status'] == 'proved', detail=str(c.get('detail'))[:800],
                                 witness=dict(skel=LATE_TIE.name, gamma=g, inputs=rp.get('inputs'))))
+    # batch entry point, un-stubbed, on models that need DIFFERENT numbers of sweeps (one converges at once, one needs three): every result of the batch obeys
+    # the same clauses as a single plan_on (an entry that has converged must neither be disturbed nor disturb the bookkeeping of those still iterating)
+    names = ('R_start_a_mid', 'R_start_b_alt', 'R_mid_good_end', 'R_mid_bad_end', 'R_alt_go_end', 'R_end_stay_end')
+    slow, fast, mid = (-1, -1, -1, -3, -1, 0), (0, 0, 0, 0, 0, 0), (-2, -1, -1, -1, -4, 0)
+    for g in (0.5, 0.9, 1.0):
+        for combo in ((fast, slow), (slow, fast), (slow, mid, fast), (mid, fast, slow)):
+            model = {'tol': 1e-9}
+            for k, vals in enumerate(combo):
+                model.update({'m%d_%s' % (k, n): x for n, x in zip(names, vals)})
+            rp = S.run_concrete(h_plan_pi, ([LATE_TIE] * len(combo), g, False, 7), model)
+            used = rp.get('inputs') or {}
+            out.append(dict(name='rt:batch:harness-reads-the-scripted-rewards', ok=used.get('m1_R_mid_bad_end') == combo[1][3], witness=dict(inputs=used)))
+            for c in rp['checks']:
+                if 'next-to-never-absorbing' in c['name']:
+                    continue
+                out.append(dict(name='rt:batch:' + re.sub(r'PI\[\d+/\d+\]', 'PI[k/n]', c['name']), ok=c['status'] == 'proved', detail=str(c.get('detail'))[:800],
+                                witness=dict(skel=LATE_TIE.name, gamma=g, batch=len(combo), clause=c['name'], inputs=rp.get('inputs'))))
     return out
 
 
